@@ -391,6 +391,7 @@ func num(n int64) string {
 
 var optionalAxioms = []struct{ sym, text string }{
 	{"(isprint ", isprintDef()},
+	{"(fnid ", "(declare-fun fnid (Int) Int)\n"},
 	{"(atoi_", "(declare-fun atoi_ok (Str) Bool)\n(declare-fun atoi_val (Str) Int)\n"},
 	{"(ix ", `(declare-fun ix (Int Int) Int)
 (assert (forall ((a Int) (b Int)) (! (= (ix a b) (+ a b)) :pattern ((ix a b)))))
@@ -413,6 +414,7 @@ const prelude = `(set-option :produce-models true)
 (declare-fun str_bytes (Str) (Array Int Int))
 (declare-fun str_concat (Str Str) Str)
 (declare-fun bytes_str ((Array Int Int) Int Int) Str)
+(assert (forall ((s Str)) (! (= (bytes_str (str_bytes s) 0 (str_len s)) s) :pattern ((str_bytes s)))))
 (declare-const str_empty Str)
 (assert (= (str_len str_empty) 0))
 (declare-fun chan_cap (Int) Int)
